@@ -24,6 +24,10 @@ pub const SECS_PER_WEEK: i64 = 604800;
 
 impl<U: TimeUnitTrait> DateTime<U> {
     pub fn into_unit<T: TimeUnitTrait>(self) -> DateTime<T> {
+        // Not-a-Time stays Not-a-Time in every unit
+        if self.is_nat() {
+            return DateTime::nat();
+        }
         if U::unit() == T::unit() {
             unsafe { std::mem::transmute::<DateTime<U>, DateTime<T>>(self) }
         } else {
